@@ -178,6 +178,12 @@ def jRunCfg (j : Json) : Except String (Bool × RunCfg) := do
     pure (← jClient f sj, ← jBool (← arg sj "lookup"))) (← arg j "stores")
   pure (fixed, { db := db, stores := stores })
 
+/-- a production of the history (a finished earlier run) for the ghost log of the initial world -/
+def jConv (j : Json) : Except String Conv := do
+  let c ← jClient (← jNat (← arg j "file")) j
+  pure { client := c, srcM0 := ← jNat (← arg j "srcM0"), srcM := ← jNat (← arg j "srcM"),
+         auxM := ← jList jNat (← arg j "auxM"), tgtM := ← jNat (← arg j "tgtM") }
+
 def label : Instr → String × Nat
   | .existsQ f _ => ("exists", f)
   | .openW f => ("openW", f)
@@ -213,13 +219,17 @@ def runOp : Handler := fun j => do
   let cfgs ← jList jRunCfg (← arg j "procs")
   let sched ← jList jNat (← arg j "sched")
   let drainAfter := match j.getObjVal? "drain" with | .ok (Json.bool b) => b | _ => false
+  -- productions performed by the finished runs that populated the initial cache (newest first); optional
+  let hist ← match j.getObjVal? "history" with
+    | .ok h => jList jConv h
+    | .error _ => pure []
   let cd := jsonCodec names
   let w : World Char :=
     { names := fun f => match files[f]? with | some (some _) => some f | _ => none
       inodes := fun i => match files[i]? with | some (some s) => s.toList | _ => []
       nextInode := files.length
       mtime := fun p => (mts.find? (·.1 == p)).map (·.2)
-      clock := clock, convs := [], obs := [], stored := [] }
+      clock := clock, convs := hist, obs := [], stored := [] }
   let s0 := Sys.start w (cfgs.map (fun (fx, r) => if fx then progFixed r else progOrig r))
   let (s1, trace) := runTraced cd s0 sched
   let s := if drainAfter then drain cd s1 else s1
@@ -230,6 +240,12 @@ def runOp : Handler := fun j => do
         ("results", Json.arr (p.results.reverse.map (fun r =>
             Json.arr #[ofStr (kindName r.client.file), ofStr (nameOf names r.target), ofBool r.hit])).toArray)])).toArray),
     ("files", Json.arr ((List.range files.length).map (fun f => ofContent (s.world.content f))).toArray),
+    -- C20Stable: is every result still the file version the process took (final state), and the hypothesis of
+    -- `results_stable_partial` evaluated on the start state
+    ("stable", Json.arr (s.procs.map (fun p => Json.arr (p.results.reverse.map (fun r =>
+        Json.arr #[ofStr (nameOf names r.target), ofNat r.tgtM, ofBool (decide (r.stable s.world))])).toArray)).toArray),
+    ("private", ofBool (decide (PrivateTargets s0))),
+    ("to_produce", Json.arr (s0.toProduce.map (fun t => ofStr (nameOf names t))).toArray),
     ("obs", Json.arr (s.world.obs.reverse.map (fun (f, c) => Json.arr #[ofNat f, ofContent c])).toArray),
     ("convs", Json.arr (s.world.convs.reverse.map (fun c => Json.arr #[ofStr (kindName c.client.file),
         ofStr (nameOf names c.client.key), ofStr (nameOf names c.client.target), ofNat c.srcM, ofNat c.tgtM,
